@@ -1,3 +1,4 @@
+@rates.setter
 def spec(self, value):
     self.rates_.data = value
     self.proportions_ = F.normalize(self.rates, p=1, dim=-1)
